@@ -89,7 +89,10 @@ pub fn replay_case(ctx: &mut Ctx, case: &J) -> Result<(), String> {
                 "c09-cfg" => parsers::check_c09_cfg(ctx, &cfg),
                 "c14" => compose::check_c14(ctx, &cfg, how),
                 "c16" => writers::check_c16(ctx, &cfg, how),
-                "c17" => writers::check_c17(ctx, &cfg, how),
+                "c17" => {
+                    writers::check_c17(ctx, &cfg, how);
+                    writers::check_c17_subs(ctx, &cfg, how)
+                }
                 "c19-cfg" => compose::check_c19_cfg(ctx, &cfg, how),
                 "c20" => compose::check_c20(ctx, &cfg),
                 o => return Err(format!("unknown cfg monitor {o}")),
